@@ -504,13 +504,18 @@ func lemmaHeaderRoundTrip(f *TimeBucketInfo) {
 //@ pure
 //@ ensures result == csRows(cs) && result >= 0
 
+// csCols(cs): number of columns of a column series
+//@ ghost func csCols(cs int) int
+
 //@ func (*ColumnSeries).GetNumColumns
-//@ trusted "number of columns"
+//@ trusted "number of columns, abstracted by csCols"
 //@ pure
+//@ ensures length == csCols(cs)
 
 //@ func (*ColumnSeries).GetColumnNames
-//@ trusted "the ordered column names"
+//@ props C27
 //@ pure
+//@ ensures columnNames == cs.orderedNames
 
 //@ func (*ColumnSeries).Exists
 //@ props C20 C13
@@ -545,6 +550,11 @@ func lemmaHeaderRoundTrip(f *TimeBucketInfo) {
 //@ ensures #start: err == nil ==> forallstr(k, pattern(nmds.StartIndex[k]), in(k, nmds.StartIndex) ==> (nmds.StartIndex[k] == old(nmds.NumpyDataset.Length) || (old(in(k, nmds.StartIndex)) && nmds.StartIndex[k] == old(nmds.StartIndex[k]))))
 //@ ensures #lengths: err == nil ==> forallstr(k, pattern(nmds.Lengths[k]), in(k, nmds.Lengths) ==> (nmds.Lengths[k] == csRows(cs) || (old(in(k, nmds.Lengths)) && nmds.Lengths[k] == old(nmds.Lengths[k]))))
 //@ ensures #rejected: err != nil ==> nmds.NumpyDataset.Length == old(nmds.NumpyDataset.Length)
+// a series is accepted exactly when it has the dataset's number of columns and the dataset's column names, in order
+//@ loop 0 invariant #sameNames: forall(k, 0, iter0, nmds.NumpyDataset.ColumnNames[k] == cs.orderedNames[k])
+//@ ensures #rejectsCount: len(old(nmds.NumpyDataset.ColumnData)) != csCols(cs) ==> err != nil
+//@ ensures #rejectsNames: err == nil ==> forall(k, 0, len(nmds.NumpyDataset.ColumnNames), nmds.NumpyDataset.ColumnNames[k] == cs.orderedNames[k])
+//@ ensures #accepts: (len(old(nmds.NumpyDataset.ColumnData)) == csCols(cs) && forall(k, 0, len(nmds.NumpyDataset.ColumnNames), nmds.NumpyDataset.ColumnNames[k] == cs.orderedNames[k])) ==> err == nil
 
 //@ func NewNumpyMultiDataset
 //@ props C27
